@@ -224,3 +224,56 @@ Fixpoint fkeys_nodup (l : list (string * jshape * bool)) : bool :=
 
 Definition env_wf (env : jenv) : bool :=
   forallb (fun d => match snd d with DObject fields => fkeys_nodup fields | DUnion _ => true end) env.
+
+(** * typing: "v is a value of the shape whose union-typed components hold member values" ([encode] succeeds
+      exactly on those values: Proofs/C02ty.v) *)
+(** the values that a position of the shape writes as null *)
+Definition nullish (s : jshape) (v : value) : bool :=
+  match s, v with
+  | ShNullable _, VNil => true
+  | ShAny, VAny JNull => true
+  | _, _ => false
+  end.
+
+Section Typing.
+  Variable env : jenv.
+
+  Fixpoint fields_shape (hs : jshape -> value -> bool) (fields : list (string * jshape * bool)) (l : list (string * value)) : bool :=
+    match fields, l with
+    | [], [] => true
+    | (k, sh, _) :: fr, (k', w) :: lr => String.eqb k k' && hs sh w && fields_shape hs fr lr
+    | _, _ => false
+    end.
+
+  Fixpoint has_shape (fuel : nat) (s : jshape) (v : value) : bool :=
+    match fuel with
+    | O => false
+    | S f =>
+        match s with
+        | ShAny => match v with VAny _ => true | _ => false end
+        | ShBool => match v with VBool _ => true | _ => false end
+        | ShNumber => match v with VNum _ => true | _ => false end
+        | ShString => match v with VStr _ => true | _ => false end
+        | ShEnum vs => match scalar_json v with
+                       | Some j => existsb (json_eqb j) vs && same_ctor (hd JNull vs) j
+                       | None => false end
+        | ShNullable s' => match v with VNil => true | _ => has_shape f s' v && negb (nullish s' v) end
+        | ShArrayOf s' => match v with VNil => true | VList l => forallb (has_shape f s') l | _ => false end
+        | ShTuple n s' => match v with VList l => Nat.eqb (List.length l) n && forallb (has_shape f s') l | _ => false end
+        | ShMapOf s' => match v with
+                        | VNil => true
+                        | VMap l => vkeys_nodup l && forallb (fun kv => match kv with (_, w) => has_shape f s' w end) l
+                        | _ => false end
+        | ShRef id =>
+            match lookup_def id env, v with
+            | Some (DObject fields), VObj l => fields_shape (has_shape f) fields l
+            | Some (DUnion members), VUnion k w =>
+                match find (fun m => String.eqb (fst m) k) members with
+                | Some m => has_shape f (snd m) w
+                | None => false end
+            | _, _ => false
+            end
+        end
+    end.
+End Typing.
+
